@@ -33,6 +33,16 @@ CHECKS = {
                      "ASan/UBSan stayed silent, with callbacks starting requests and cancelling, hostile servers, socket "
                      "faults and seeded reordering of replies vs. timers. Exploration: histories not generated are not covered.",
                 note="Trusts the simulator's socket/server model and gcc ASan/UBSan; single-threaded (threads: C11)."),
+    "C05": dict(engine="simnet", category="exploration", design_ref="DESIGN.md §4 C05",
+                technique="runtime monitoring in a deterministic simulator: provenance serial in every packet, adversary "
+                          "injecting single-attribute forgeries and stale replies, classification at creation and at the moment "
+                          "the library reads the packet",
+                text="Held on the seeded histories explored: no request (including later identical requests served from the "
+                     "cache) was ever handed a record whose serial belongs to a forged packet (wrong id, name, type, class, "
+                     "letter case under 0x20, source address incl. same-prefix addresses, missing question, wrong client "
+                     "cookie, missing cookie after proven support) or to a reply that named a query not waiting on the socket "
+                     "it arrived on, and no such packet was followed by a server-success notification.",
+                note="Current connection of a query is read from the live query via ares_private.h; UDP-only adversary."),
     "C06": dict(engine="simnet", category="exploration", design_ref="DESIGN.md §4 C06",
                 technique="runtime monitoring in a deterministic simulator: transmission accounting per wire query at the "
                           "virtual network + wait-bound checks on every (re)send + stuck detection, under UBSan/ASan",
